@@ -67,13 +67,16 @@ MDerive == \E h \in Handles : /\ IsSk(h) /\ Room(1) /\ Derive(h, nh) /\ nh' = nh
 MClone  == \E h \in Handles : /\ Live(h) /\ Room(1) /\ Clone(h, nh) /\ nh' = nh + 1 /\ Rec([op |-> "Clone", h |-> h, h2 |-> nh])
 MDrop   == \E h \in Handles : /\ Live(h) /\ Drop(h) /\ UNCHANGED nh /\ Rec([op |-> "Drop", h |-> h])
 
-MNext == MKeyGenSeed \/ MKeyGenRng \/ MSign \/ MVerify \/ MSignInternal \/ MVerifyInternal \/ MSer \/ MDeser \/ MDerive \/ MClone \/ MDrop
+MDudect == \E fault \in Faults, at \in {0, 1} :
+   /\ Dudect(fault, at) /\ UNCHANGED nh
+   /\ Rec([op |-> "Dudect", fault |-> fault, at |-> at, ok |-> out'.ok])
+MNext == MDudect \/ MKeyGenSeed \/ MKeyGenRng \/ MSign \/ MVerify \/ MSignInternal \/ MVerifyInternal \/ MSer \/ MDeser \/ MDerive \/ MClone \/ MDrop
 MSpec == MInit /\ [][MNext]_mvars
 Bound == Len(hist) <= MaxDepth
 
 \* ---- properties
 \* C07 / C12: a call that reports an error creates no object and issues no signature
-ErrorCreatesNothing == [][ (out'.op \in {"Sign", "KeyGenRng"} /\ ~out'.ok) => (keys' = keys /\ issued' = issued) ]_mvars
+ErrorCreatesNothing == [][ (out'.op \in {"Sign", "KeyGenRng", "Dudect"} /\ ~out'.ok) => (keys' = keys /\ issued' = issued) ]_mvars
 \* C02/C05/C06 (ideal form): TRUE is returned only for exactly an issued tuple with a context within the limit
 VerifyMeansIssued == [][ (out'.op = "Verify" /\ out'.res) => (\E t \in issued : t[2] \in Sets) ]_mvars
 \* C07: no external operation succeeds with a context longer than 255 bytes, and none has a formatted message
@@ -85,7 +88,7 @@ CrossInterface ==
   \A t \in issued : \A h \in Handles : \A mode \in MModes, c \in Ctxs, msg \in Msgs :
      (IsPk(h) /\ c.len <= 255) => (Verdict(h, c.len, Fmt(mode, c, msg), t[1]) = VerdictMp(h, Fmt(mode, c, msg), t[1]))
 \* C12: randomness is requested at most once per call, through the fallible method only
-RngDiscipline == ("rnglog" \in DOMAIN out) => out.rnglog \in {OneDraw, NoDraw}
+RngDiscipline == ("rnglog" \in DOMAIN out) => out.rnglog \in (IF out.op = "Dudect" THEN {OneDraw, TwoDraws} ELSE {OneDraw, NoDraw})
 \* C09/C11: all live public keys of one lineage and set are interchangeable (same verdict on every issued tuple)
 PkInterchangeable ==
   \A h1, h2 \in Handles : (IsPk(h1) /\ IsPk(h2) /\ keys[h1].set = keys[h2].set /\ keys[h1].lin = keys[h2].lin) =>
